@@ -39,7 +39,14 @@ from streamflow.main import build_context
 from streamflow.recovery.failure_manager import RollbackFailureManager
 from streamflow.workflow.executor import StreamFlowExecutor
 from streamflow.workflow.port import ConnectorPort, JobPort
+from streamflow.cwl.transformer import ForwardTransformer
+from streamflow.workflow.combinator import LoopCombinator, LoopTerminationCombinator
+from streamflow.workflow.token import IterationTerminationToken
 from streamflow.workflow.step import (
+    CombinatorStep,
+    ConditionalStep,
+    LoopCombinatorStep,
+    LoopOutputStep,
     DefaultCommandOutputProcessor,
     DeployStep,
     ExecuteStep,
@@ -71,7 +78,11 @@ class Scenario:
         self.trace = []       # events in the order the real code produced them
         self.workdir = None
         self.barrier = None   # {"jobs": set, "arrived": int, "event": Event, "wipe": bool}: failing first attempts meet here
-        self.hold = None      # {"job", "attempt", "syncs", "seen", "event"}: that attempt waits until `syncs` recoveries synchronised
+        self.hold = None      # {"job", "attempt", "syncs", "seen", "event", "point"}: that attempt waits until `syncs` recoveries
+                              # synchronised; point "command" = before the command completes, "output" = after the command
+                              # ended, before its outputs are collected and put
+        self.late = None      # {"jobs": set, "event": Event}: failing first attempts that fail only once the held job
+                              # reached its hold point (so that their recoveries synchronise inside that window)
 
     def ev(self, *e):
         self.trace.append(list(e))
@@ -164,6 +175,16 @@ class VOutputProcessor(DefaultCommandOutputProcessor):
         context = self.workflow.context
         value = (await command_output).value
         tag = get_tag(job.inputs.values())
+        h = SC.hold
+        if (h is not None and h["point"] == "output" and job.name == h["job"]
+                and SC.attempts.get((posixpath.dirname(job.name), tag, "execute"), 0) == h["attempt"]):
+            SC.ev("at-output", job.name)
+            if SC.late is not None:
+                SC.late["event"].set()
+            try:
+                await asyncio.wait_for(h["event"].wait(), h["timeout"])
+            except asyncio.TimeoutError:
+                SC.ev("hold-timeout")
         if self.value_type == "file":
             locations = context.scheduler.get_locations(job.name)
             if not await StreamFlowPath(value, context=context, location=locations[0]).exists():
@@ -226,10 +247,18 @@ class VCommand(Command):
                 b["event"].set()
             else:
                 await b["event"].wait()
-        h = SC.hold
-        if kind is None and h is not None and job.name == h["job"] and n == h["attempt"]:
+        lt = SC.late
+        if kind is not None and lt is not None and job.name in lt["jobs"] and n == 1:
             try:
-                await asyncio.wait_for(h["event"].wait(), 30)
+                await asyncio.wait_for(lt["event"].wait(), 30)
+            except asyncio.TimeoutError:
+                SC.ev("late-timeout")
+        h = SC.hold
+        if kind is None and h is not None and h["point"] == "command" and job.name == h["job"] and n == h["attempt"]:
+            if lt is not None:
+                lt["event"].set()
+            try:
+                await asyncio.wait_for(h["event"].wait(), h["timeout"])
             except asyncio.TimeoutError:
                 SC.ev("hold-timeout")
         if kind is not None:
@@ -261,6 +290,51 @@ class VCommand(Command):
             await context.database.add_execution(self.step.persistent_id, job_token.persistent_id, self.op),
             {"status": out.status})
         return out
+
+
+class VLoopWhenStep(ConditionalStep):
+    """`while counter < limit` (imitates tests/utils/workflow.py:BaseLoopConditionalStep)"""
+
+    def __init__(self, name, workflow):
+        super().__init__(name, workflow)
+        self.skip_ports = {}
+
+    async def _eval(self, inputs):
+        return inputs["counter"].value < inputs["limit"].value
+
+    async def _on_true(self, inputs):
+        for port_name, port in self.get_output_ports().items():
+            port.put(await self._persist_token(token=inputs[port_name].update(inputs[port_name].value), port=port,
+                                               input_token_ids=get_entity_ids(inputs.values())))
+
+    async def _on_false(self, inputs):
+        for port in self.get_skip_ports().values():
+            port.put(IterationTerminationToken(tag=get_tag(inputs.values())))
+
+    async def _save_additional_params(self, database):
+        return cast(dict, await super()._save_additional_params(database)) | {
+            "skip_ports": {k: p.persistent_id for k, p in self.get_skip_ports().items()}}
+
+    @classmethod
+    async def _load(cls, row, loading_context):
+        step = cls(name=row["name"], workflow=await loading_context.load_workflow(row["workflow"]))
+        for k, pid in row["params"]["skip_ports"].items():
+            step.add_skip_port(k, await loading_context.load_port(pid))
+        return step
+
+    def add_skip_port(self, name, port):
+        if port.name not in self.workflow.ports:
+            self.workflow.ports[port.name] = port
+        self.skip_ports[name] = port.name
+
+    def get_skip_ports(self):
+        return {k: self.workflow.ports[v] for k, v in self.skip_ports.items()}
+
+
+class VLoopOutputLastStep(LoopOutputStep):
+    async def _process_output(self, tag):
+        return sorted(self.token_map.get(tag, [Token(value=None)]),
+                      key=lambda t: int(t.tag.split(".")[-1]))[-1].retag(tag=tag)
 
 
 class VScheduleStep(ScheduleStep):
@@ -464,6 +538,50 @@ class Builder:
         ex.add_output_port("out", self.wf.create_port(), VOutputProcessor("out", self.wf, out))
         return ex
 
+    def forward(self, name, key, port, out=None):
+        st = self.wf.create_step(cls=ForwardTransformer, name=name)
+        st.add_input_port(key, port)
+        st.add_output_port(key, out if out is not None else self.wf.create_port())
+        return st.get_output_port(key)
+
+    def loop(self, name, inputs, body):
+        """inputs: {key: Port} (must contain 'counter', 'limit', 'x'); body(loop_ports) -> {key: Port} next values.
+        Returns the port carrying the last value of 'x' (imitates RecoveryTranslator.get_input_loop/get_output_loop)."""
+        comb = LoopCombinator(workflow=self.wf, name=name + "-loop-combinator")
+        fwd = {}
+        for k, p in inputs.items():
+            fwd[k] = self.forward(posixpath.join(name, k) + "-input-forward-transformer", k, p)
+            comb.add_item(k)
+        cstep = self.wf.create_step(cls=LoopCombinatorStep, name=name + "-loop-combinator", combinator=comb)
+        for k, p in fwd.items():
+            cstep.add_input_port(k, p)
+            cstep.add_output_port(k, self.wf.create_port())
+        when = self.wf.create_step(cls=VLoopWhenStep, name=name + "-loop-when")
+        loop_ports = {}
+        for k in inputs:
+            when.add_input_port(k, cstep.get_output_port(k))
+            loop_ports[k] = self.wf.create_port()
+            when.add_output_port(k, loop_ports[k])
+        nxt = body(loop_ports)
+        internal = dict(nxt)
+        term_comb = LoopTerminationCombinator(workflow=self.wf, name=name + "-loop-termination-combinator")
+        term = self.wf.create_step(cls=CombinatorStep, name=name + "-loop-terminator", combinator=term_comb)
+        for k, p in cstep.get_input_ports().items():
+            term.add_output_port(k, p)
+            term_comb.add_output_item(k)
+        k = "x"
+        internal[k] = self.forward(posixpath.join(name, k) + "-output-forward-transformer", k, nxt[k])
+        lout = self.wf.create_step(cls=VLoopOutputLastStep, name=posixpath.join(name, k) + "-loop-output")
+        lout.add_input_port(k, internal[k])
+        when.add_skip_port(k, internal[k])
+        lout.add_output_port(k, self.wf.create_port())
+        term.add_input_port(k, lout.get_output_port(k))
+        term_comb.add_item(k)
+        for k2 in nxt:
+            self.forward(posixpath.join(name, k2) + "-back-propagation-transformer", k2, internal[k2],
+                         out=cstep.get_input_port(k2))
+        return lout.get_output_port("x")
+
     def scatter(self, name, port):
         sc = self.wf.create_step(cls=ScatterStep, name=f"{name}-scatter")
         sc.add_input_port("out", port)
@@ -502,6 +620,20 @@ def build_shape(b: Builder, shape, seedfile):
         for i in range(shape["post"]):
             port = b.execute(f"/c{i}", {"x": port}, cat, f"c{i}", one).get_output_port("out")
         return port
+    if kind == "loop":
+        for i in range(shape["pre"]):
+            port = b.execute(f"/a{i}", {"x": port}, cat, f"a{i}", one).get_output_port("out")
+        inputs = {"x": port, "counter": b.injector("counter", 0), "limit": b.injector("limit", shape["iters"])}
+
+        def body(lp):
+            cnt = b.execute("/cnt", {"counter": lp["counter"]}, "succ", "cnt", "primitive").get_output_port("out")
+            bod = b.execute("/body", {"x": lp["x"]}, cat, "body", one).get_output_port("out")
+            return {"x": bod, "counter": cnt, "limit": lp["limit"]}
+
+        port = b.loop("/body", inputs, body)
+        for i in range(shape["post"]):
+            port = b.execute(f"/c{i}", {"x": port}, cat, f"c{i}", one).get_output_port("out")
+        return port
     if kind == "diamond":
         root = b.execute("/root", {"x": port}, cat, "root", one).get_output_port("out")
         brs = {f"p{i}": b.execute(f"/br{i}", {"x": root}, cat, f"br{i}", one).get_output_port("out")
@@ -524,7 +656,10 @@ async def _run(case, hooks=None):
                       "wipe": bool(case["barrier"].get("wipe"))}
     if case.get("hold"):
         SC.hold = {"job": case["hold"]["job"], "attempt": case["hold"]["attempt"], "syncs": case["hold"]["syncs"],
-                   "seen": 0, "event": asyncio.Event()}
+                   "seen": 0, "event": asyncio.Event(), "point": case["hold"].get("point", "command"),
+                   "timeout": case["hold"].get("timeout", 30)}
+    if case.get("late"):
+        SC.late = {"jobs": set(case["late"]), "event": asyncio.Event()}
     seedfile = os.path.join(base, "seed.txt")
     with open(seedfile, "w") as f:
         f.write("seed")
@@ -595,7 +730,7 @@ def run_engine(case, hooks=None):
         # well below the worker's SIGALRM limit, so that a hanging scenario cannot poison the cases that follow it
         async def limited():
             try:
-                return await asyncio.wait_for(_run(case, hooks), ENGINE_TIMEOUT)
+                return await asyncio.wait_for(_run(case, hooks), case.get("engine_timeout", ENGINE_TIMEOUT))
             except asyncio.TimeoutError:
                 return {"hang": True, "trace_tail": SC.trace[-40:]}
         return loop.run_until_complete(limited())
